@@ -24,7 +24,9 @@ def run(ctx):
         runs.append(("some2", {"InitTables <- T2": "InitTables <- SomeTables"}, None))
         runs.append(("mixed-lite3", {"InitTables <- T2": "InitTables <- FewTables", "MaxOps = 2": "MaxOps = 3", "Ops <- IW": "Ops <- AllOps", "Lite = FALSE": "Lite = TRUE"}, None))
         runs.append(("mixed-sim", {"InitTables <- T2": "InitTables <- SomeTables", "MaxOps = 2": "MaxOps = 4", "Ops <- IW": "Ops <- AllOps"}, dict(num=8)))
+        runs.append(("where3", {"InitTables <- T2": "InitTables <- Tables3", "MaxOps = 2": "MaxOps = 3", "Ops <- IW": "Ops <- W3"}, None))
     else:
+        runs.append(("where3", {"InitTables <- T2": "InitTables <- Tables3", "MaxOps = 2": "MaxOps = 4", "Ops <- IW": "Ops <- W3"}, None))
         runs.append(("T2x2", {}, None))
         runs.append(("some3-lite", {"InitTables <- T2": "InitTables <- SomeTables", "MaxOps = 2": "MaxOps = 3", "Lite = FALSE": "Lite = TRUE"}, None))
         runs.append(("mixed-lite3", {"InitTables <- T2": "InitTables <- SomeTables", "MaxOps = 2": "MaxOps = 3", "Ops <- IW": "Ops <- AllOps", "Lite = FALSE": "Lite = TRUE"}, None))
@@ -75,7 +77,7 @@ def replay(h, enc, Table, Missing):
     def same_rows(a, b):
         return len(a) == len(b) and all(len(x) == len(y) and all((p is q) if (p is Missing or q is Missing or p is None or q is None) else p == q for p, q in zip(x, y)) for x, y in zip(a, b))
     stale = False      # rows were inserted into an indexed table that do not continue its order (known finding)
-    base = Table(columns=("a", "b"))
+    base = Table(columns=cols(h[0]["ncols"]))
     first = exp_rows(h[0])
     if first: base.insert(first)
     cur = base
@@ -131,15 +133,18 @@ def replay(h, enc, Table, Missing):
                         want = [r for r in rows_of(t2) if any(same_rows([r], [e]) for e in exp)]
                         g2 = rows_of(t2.where(comparison=o, **{col: a}))
                         if not same_rows(g2, want): return ("where:%s:%s" % (o, nm), "step %d where(%s %s %r) on a %s gave %r, expected %r" % (nstep, col, o, x, nm, g2, want))
+            elif op == "where3":
+                x1, x2, o3, x3 = args
+                cur = cur.where(a=val(x1), b=val(x2), c={o3: val(x3)})
             elif op == "where2":
                 o1, x1, o2, x2 = args
                 cur = cur.where(a={o1: val(x1)}, b=(val(x2) if o2 == "plain" else {o2: val(x2)}))
             got = rows_of(cur); exp = exp_rows(step)
             if len(cur) != len(got): return (op + ":len", "step %d %s%r: len() says %d, iterating gives %d rows" % (nstep, op, args, len(cur), len(got)))
-            if not same_rows(got, exp): return (op if not (stale and op in ("where2", "index")) else "where:after-unsorted-insert-into-indexed-table", "step %d %s%r: table shows %r, expected %r" % (nstep, op, args, got, exp))
+            if not same_rows(got, exp): return (op if not (stale and op in ("where2", "where3", "index")) else "where:after-unsorted-insert-into-indexed-table", "step %d %s%r: table shows %r, expected %r" % (nstep, op, args, got, exp))
             if tuple(cur.columns) != cols(step["ncols"]): return (op + ":columns", "step %d columns %r expected %r" % (nstep, cur.columns, cols(step["ncols"])))
             if op in ("index", "copy") and tuple(cur.indexes) != tuple(step["idx"]): return (op + ":indexes", "step %d indexes %r expected %r" % (nstep, cur.indexes, step["idx"]))
         except Exception as e:
-            if stale and op in ("where", "where2"): return ("where:after-unsorted-insert-into-indexed-table", "step %d %s%r raised %s" % (nstep, op, args, type(e).__name__))
+            if stale and op in ("where", "where2", "where3"): return ("where:after-unsorted-insert-into-indexed-table", "step %d %s%r raised %s" % (nstep, op, args, type(e).__name__))
             return ("%s:raises:%s" % (op if op != "where" else "where:" + args[1], type(e).__name__), "step %d %s%r raised %s: %s" % (nstep, op, args, type(e).__name__, str(e)[:100]))
     return None
